@@ -45,7 +45,7 @@ def campaign(out, prop, items, mine, label=""):
     ties = 0
     for it in items:
         v = verdicts[it["id"]]
-        if v["info"].get("ties", 0) > 0:
+        if any(c.endswith(".tieorder") for c in v["clauses"]):
             ties += 1
         sig = pipeline.signature(it["a"])
         if sig:
@@ -328,3 +328,161 @@ def replay(prop, d):
 
 
 REGISTRY = {"C09": check_c09, "C12": check_c12, "C13": check_c13, "C14": check_c14, "C16": check_c16}
+
+
+# ------------------------------------------------------------------------------------------------ C17
+def c17_graph(rnd):
+    """instance IRIs from 1-3 namespaces with shared / unshared path segments, one IRI extending another by a separator,
+    'https://' as the only common part, a urn: family; a few blank-node instances"""
+    families = [
+        ["http://ex.org/a/b1", "http://ex.org/a/b2", "http://ex.org/a/c"],
+        ["http://ex.org/ab/c", "http://ex.org/abd", "http://ex.org/ab#e"],
+        ["https://a.org/x", "https://b.org/y"],
+        ["http://a.org/x", "http://b.org/y"],
+        ["urn:x:1", "urn:x:2", "urn:y:3"],
+        ["http://ex.org/data/item1", "http://ex.org/data/item12", "http://ex.org/data/it"],
+        ["http://ex.org/p#a", "http://ex.org/p#b"],
+        ["http://ex.org/only"],
+        ["ab", "ac"],
+    ]
+    classes = [M.EX + "C%d" % i for i in range(rnd.randint(1, 3))]
+    T = set()
+    for c in classes:
+        fam = rnd.choice(families)
+        members = rnd.sample(fam, rnd.randint(1, len(fam)))
+        if rnd.random() < .2:
+            members.append(rnd.choice(rnd.choice(families)))
+        nodes = [M.iri(x) for x in members]
+        if rnd.random() < .15:
+            nodes.append(M.bnode("b%d" % rnd.randint(0, 2)))
+        for n in nodes:
+            T.add((n, M.RDF_TYPE, M.iri(c)))
+            for p in (M.EX + "p", M.EX + "q"):
+                for _ in range(rnd.choice([0, 1, 1, 2])):
+                    r = rnd.random()
+                    o = rnd.choice(nodes) if r < .4 else (M.lit("v%d" % rnd.randint(0, 3)) if r < .7 else
+                                                          (M.lit("w%d" % rnd.randint(0, 2), lang="en") if r < .85 else M.bnode("u0")))
+                    T.add((n, p, o))
+    T = sorted(T, key=str)
+    rnd.shuffle(T)
+    return T
+
+
+def _c17_observe(case):
+    """one run: stems / examples as printed + the tracker's membership"""
+    r = runner.run_case(case, want_text=True)
+    if r["status"] != "ok":
+        return r
+    cfg = case["cfg"]
+    if cfg["format"] == "shacl":
+        import rdflib
+        g = rdflib.Graph()
+        g.parse(data=r["text"], format="turtle")
+        S = rdflib.Namespace("http://www.w3.org/ns/shacl#")
+        r["shacl_patterns"] = {str(s): str(o) for s, o in g.subject_objects(S.pattern)}
+        r["shacl_shapes"] = [str(s) for s in g.subjects(rdflib.RDF.type, S.NodeShape)]
+    return r
+
+
+def _example_id(text, cfg):
+    t = text.strip()
+    if t.startswith("<") and t.endswith(">"):
+        return t[1:-1]
+    if t.startswith('"') and t.endswith('"'):
+        return t[1:-1]
+    for ns, pre in cfg["nsDict"] + [[cfg["shapesNs"], ""]]:
+        if t.startswith(pre + ":"):
+            return ns + t[len(pre) + 1:]
+    return t
+
+
+def _value_id(term):
+    k, v = term
+    if k == M.LANG_STRING:
+        return v.rsplit("@", 1)[0]
+    return v
+
+
+def check_c17(out, tier):
+    rnd = random.Random(common.seed() + 17)
+    mine = lambda c: c.startswith("C17.")
+    for cfg in (["MC_C17_quick.cfg"] if tier == "quick" else ["MC_C17_thorough.cfg", "MC_C17_thorough3.cfg"]):
+        r = tlc.check_model("MC_MinIri", cfg, workers=8, timeout=3000)
+        out.add_l1("MC_MinIri/" + cfg, r)
+        for inv in r["violated"]:
+            out.violation("L1.%s" % inv, {"model": cfg}, r["out"][-1500:])
+    k = pipeline.SIZES[tier]
+    cases, items = [], []
+    for i in range(170 * k):
+        T = c17_graph(rnd)
+        cfg = gen.switches(rnd)
+        cfg.update(minIri=rnd.random() < .8, examples=rnd.choice(["", "", "shape", "cons", "all"]), format=rnd.choice(["shexc", "shexc", "shacl"]),
+                   nsDict=rnd.choice([[], gen.NSDICT]), report="mixed")
+        if cfg["format"] == "shacl":
+            cfg["examples"] = ""
+        c = gen.case("c17g%d" % i, T, **cfg)
+        cases.append(c)
+        if cfg["format"] == "shexc":
+            items.append({"id": c["id"] + "rel", "rel": "present", "how": "minIri/examples", "a": with_cfg(c, minIri=False, examples=""), "b": c})
+    results = runner.run_many(_c17_observe, cases)
+    traces = []
+    for c, r in zip(cases, results):
+        if r.get("status") == "harness-error":
+            raise common.Machinery("harness error: %s\n%s" % (r.get("exc"), r.get("trace", "")))
+        if r["status"] != "ok":
+            out.skip("crashed (judged by C04)")
+            continue
+        cfg = c["cfg"]
+        T = M.from_json_graph(c["graph"])
+        members = {}
+        for node, key in r.get("tracked", []):
+            members.setdefault(key, []).append(node[1])
+        labels = dict(runner.expected_labels(c))
+        shapes = []
+        if cfg["format"] == "shexc":
+            if r["schema"]["parse"] != "ok":
+                out.violation("C17.unparseable", c, r["schema"]["parse"])
+                continue
+            for s in r["schema"]["shapes"]:
+                inst = members.get(s["key"], [])
+                tcs = []
+                for t in s["tcs"]:
+                    vals = [_value_id(o if not t["inv"] else sub) for sub, p, o in T
+                            if p == t["p"] and ((sub[1] in inst and not t["inv"]) or (o[1] in inst and t["inv"] and M.is_node(o)))]
+                    ex = t["examples"][0] if t["examples"] else ""
+                    tcs.append({"hasExample": bool(t["examples"]), "example": _example_id(ex, cfg) if ex else "", "values": vals})
+                shapes.append({"key": s["key"], "instances": [list(x) for x in inst], "instanceIds": inst, "stem": list(s["stem"]),
+                               "hasExample": bool(s["example"]), "example": _example_id(s["example"], cfg) if s["example"] else "", "tcs": tcs})
+        else:
+            for key, label in labels.items():
+                if label not in r["shacl_shapes"]:
+                    continue
+                inst = members.get(key, [])
+                pat = r["shacl_patterns"].get(label, "")
+                shapes.append({"key": key, "instances": [list(x) for x in inst], "instanceIds": inst, "stem": list(pat[1:] if pat.startswith("^") else pat),
+                               "hasExample": False, "example": "", "tcs": []})
+        traces.append({"id": c["id"], "minIri": cfg["minIri"], "shapeExamples": cfg["examples"] in ("shape", "all") and cfg["format"] == "shexc",
+                       "shapes": shapes})
+    verdicts, stats = tlc.validate_batch("Trace_MinIri", "Trace_MinIri.cfg", traces, procs=10)
+    out.traces += len(traces)
+    out.evaluations += len(traces)
+    out.notes["monitor_states"] = stats["states"]
+    byid = {c["id"]: c for c in cases}
+    for t in traces:
+        v = verdicts[t["id"]]
+        if any(cl.startswith("MACHINERY") for cl in v["clauses"]):
+            raise common.Machinery("C17 %s: %s" % (t["id"], v["clauses"]))
+        if len(t["shapes"]) >= 1 and any(len(s["instanceIds"]) >= 2 for s in t["shapes"]):
+            out.nontrivial.add(t["id"])
+        out.judge_clauses(v["clauses"], byid[t["id"]], mine,
+                          detail="stems=%s" % [("".join(s["stem"]), s["instanceIds"]) for s in t["shapes"]][:3])
+        out.sample({"case": t["id"], "shapes": [{"instances": s["instanceIds"], "stem": "".join(s["stem"]), "example": s["example"]} for s in t["shapes"]][:2],
+                    "clauses": v["clauses"]})
+    campaign(out, "C17", items, mine)
+    return ("graphs whose instance IRIs come from families with shared / unshared path segments, an IRI extending another by a separator "
+            "character, 'https://' or 'http://' as the only common part, urn: IRIs, scheme-less strings, blank-node instances x examples_mode "
+            "x inverse_paths x ShExC / SHACL (sh:pattern): the printed stem is compared by TLC with MinIri!StemSpec over the tracker's own "
+            "membership, examples must be members / actual values, and the constraints must equal those of the run without either option")
+
+
+REGISTRY["C17"] = check_c17
